@@ -430,7 +430,10 @@ def depth_cases(rng, tier, lvline):
 def history_cases(rng, tier):
     """ops on synthetic topologies of N cores; a laminar family of core ranges inserted in random orders, so that
     later Groups land in already existing Group levels at non-first positions"""
-    out = ["synthetic pack:2 core:8 pu:1 | g 3 0 3 | g 3 0 1 | g 3 8 11 | g 3 8 9"]       # two Group levels, the last Group joins the 2nd one
+    out = ["synthetic pack:2 core:8 pu:1 | g 3 0 3 | g 3 0 1 | g 3 8 11 | g 3 8 9",       # two Group levels, the last Group joins the 2nd one
+           # re-insertion of a Group with the cpuset of an existing Group of each Group level, dont_merge=1: replaces its contents
+           "synthetic pack:2 core:8 pu:1 | g 3 0 3 | g 3 0 1 | g 3 8 11 | g 3 8 9 | g 3 8 9 1 | g 3 0 3 1",
+           "synthetic pack:1 core:16 pu:2 | g 3 0 7 | g 3 0 3 | g 3 0 1 | g 3 4 7 | g 3 6 7 | g 3 6 7 1 | g 3 4 7 1 | g 3 0 1 0 0 | g 3 0 7 1"]
     n = 14 if tier == "quick" else 150
     for k in range(n):
         if k % 3 == 0:
@@ -442,6 +445,9 @@ def history_cases(rng, tier):
         fam = [(a, a + sz - 1) for sz in sizes for a in range(0, ncore, sz)]
         sub = rng.sample(fam, rng.randrange(3, min(len(fam), 9) + 1))
         ops = ["g 3 %d %d%s" % (a, b, " 1" if rng.random() < 0.15 else "") for a, b in sub]
+        # same cpuset again (every Group level gets its turn over the runs): merged, or replacing the existing Group
+        for a, b in rng.sample(sub, rng.randrange(1, min(3, len(sub)) + 1)):
+            ops.append("g 3 %d %d %s" % (a, b, rng.choice(["1", "1", "1", "0", "1 0", "0 0", "1 1"])))
         r = rng.random()
         if r < 0.25:
             mask = 0
